@@ -35,7 +35,7 @@ def design(ctx, box):
     universe, children-may-match is sound, and the three negative twins are refuted."""
     try:
         res = ctx.tlc("Fn_GlobDesign", workers=1, deadlock=False, timeout=1500, name="design",
-                      defines={"MaxParts": ctx.pick("3", "4"), "MaxDepth": "4", "ListDepth": ctx.pick("2", "3"), "ListTriples": ctx.pick("FALSE", "TRUE")})
+                      defines={"MaxParts": ctx.pick("3", "4"), "MaxDepth": ctx.pick("3", "4"), "ListParts": ctx.pick("1", "2"), "ListDepth": ctx.pick("2", "3"), "ListTriples": ctx.pick("FALSE", "TRUE")})
         got = dict(re.findall(r'<<"(\w+)", (TRUE|FALSE)>>', res["out"]))
         want = {"RefinesMatch": "TRUE", "ChildSound": "TRUE", "RefinesList": "TRUE", "ArrOK": "TRUE",
                 "TwinMatch": "FALSE", "TwinChild": "FALSE", "TwinList": "FALSE"}
